@@ -770,6 +770,34 @@ fn gen_c12(r: &mut Rng, thorough: bool, out: &mut dyn Write) {
             for _ in 0..3 { let _ = writeln!(out, "a {} {} {}", p.name(), random_events(r, &b), struct_script(r, fs, false)); }
         }
     } }
+    // ---- two values on one stream, the first skipped or read, the second read or skipped: what the first leaves behind in the
+    // reader (compact: a bool carried by a field header) must not leak into the second
+    let firsts: Vec<Val> = vec![
+        Val::Struct(vec![(1, Val::Bool(true)), (2, Val::I32(5))]),
+        Val::Struct(vec![(1, Val::Struct(vec![(1, Val::Bool(false))])), (2, Val::Bool(true))]),
+        Val::List(TT::Struct, vec![Val::Struct(vec![(3, Val::Bool(true))])]),
+        Val::Map(TT::I8, TT::Struct, vec![(Val::I8(1), Val::Struct(vec![(1, Val::Bool(true)), (2, Val::Bool(false))]))]),
+        Val::Bool(true), Val::I16(300),
+    ];
+    let seconds: Vec<Val> = vec![
+        Val::List(TT::Bool, vec![Val::Bool(false), Val::Bool(true), Val::Bool(false)]),
+        Val::Map(TT::Bool, TT::Bool, vec![(Val::Bool(false), Val::Bool(true))]),
+        Val::Set(TT::Bool, vec![Val::Bool(false)]),
+        Val::Struct(vec![(1, Val::Bool(false)), (2, Val::List(TT::Bool, vec![Val::Bool(true)]))]),
+        Val::Bool(false), Val::I64(-1),
+    ];
+    for v in &firsts { for w in &seconds { for p in protos {
+        let b = enc_with(p, &[v.clone(), w.clone()]);
+        let all: Vec<usize> = (1..b.len()).collect();
+        for (a1, a2) in [("skip", "read"), ("read", "read"), ("skip", "skip"), ("read", "skip")] {
+            let script = format!("({} {}) ({} {})", a1, v.tt().name(), a2, w.tt().name());
+            let _ = writeln!(out, "a {} {} {}", p.name(), events_text(&b, &[], &|_| 0), script);
+            let _ = writeln!(out, "a {} {} {}", p.name(), events_text(&b, &all, &|i| i % 2), script);
+        }
+        if let Val::Struct(fs) = v {
+            let _ = writeln!(out, "a {} {} {} (read {})", p.name(), random_events(r, &b), struct_script(r, fs, false), w.tt().name());
+        }
+    } } }
     // ---- adversarial headers: both decoders must reject (the in-memory one at the header since f7447f5, the async one at end of stream)
     for (p, h, t) in [
         ("bin", "0f08ffffffff", "list"), ("bin", "0f087fffffff00000001", "list"), ("bin", "0b0800000003000000010000000200", "map"),
@@ -997,6 +1025,21 @@ pub fn gen(stream: &str, tier: &str, seed: u64, out: &mut dyn Write) -> bool {
                 let _ = writeln!(out, "ur {} (msg) (read struct)", hex(&b));
             }
             let _ = writeln!(out, "ur 8001000500000000000000 (msg)");             // bad message type: refused
+            // element counters of the iterative skipper: containers of non-fixed-size elements around 2^8 and 2^16 elements (2^15 map
+            // entries), alone and inside a skipped struct.  The big ones are judged by the oracle only (checked skipper on the same
+            // bytes: same count, same position, the value behind reads back); the model is not asked
+            for cnt in [255usize, 256, 257, 65535, 65536, 65537] {
+                let tail = if cnt > 1000 { " oracle-only" } else { "" };
+                let l = Val::List(TT::Binary, vec![Val::Bin(vec![]); cnt]);
+                let m = Val::Map(TT::I8, TT::Binary, vec![(Val::I8(1), Val::Bin(vec![0x61])); cnt / 2]);
+                let ll = Val::Set(TT::List, vec![Val::List(TT::Bool, vec![]); cnt]);
+                for v in [l, m, ll] {
+                    let b = enc(&[v.clone(), Val::I8(7)], &None);
+                    let _ = writeln!(out, "ur {} (skip {}) (read i8){}", hex(&b), v.tt().name(), tail);
+                    let b = enc(&[Val::Struct(vec![(1, v.clone()), (2, Val::I32(5))]), Val::I8(7)], &None);
+                    let _ = writeln!(out, "ur {} (skip struct) (read i8){}", hex(&b), tail);
+                }
+            }
             for len in [0usize, 1, 4095, 4096, 4097] {
                 let b = enc(&[Val::Struct(vec![(1, payload(len, 5)), (2, Val::I16(9))]), Val::I8(3)], &None);
                 let _ = writeln!(out, "ur {} (read struct) (read i8)", hex(&b));
